@@ -29,7 +29,19 @@ type FuncConn struct {
 	wbuf    []byte       // incomplete line written by the client
 	lines   []string
 	closes  int
+	stall   bool // the server is silent: the next Read on an empty buffer fails with a timeout error (once)
 }
+
+// StallMarker, returned by a FuncConn handler instead of reply bytes, makes the server stay silent: the client's
+// next Read (with nothing buffered) returns a timeout error (a net.Error with Timeout() == true), as after an
+// elapsed read deadline.
+const StallMarker = "\x00STALL\x00"
+
+type stallErr struct{}
+
+func (stallErr) Error() string   { return "read mem: i/o timeout" }
+func (stallErr) Timeout() bool   { return true }
+func (stallErr) Temporary() bool { return true }
 
 // NewFuncConn returns a FuncConn whose read buffer is pre-loaded with greeting (e.g. "220 x ESMTP\r\n").
 func NewFuncConn(greeting string, handler func(line string) (reply string)) *FuncConn {
@@ -47,6 +59,10 @@ func (c *FuncConn) Read(p []byte) (int, error) {
 	}
 	if len(p) == 0 {
 		return 0, nil
+	}
+	if c.rbuf.Len() == 0 && c.stall {
+		c.stall = false
+		return 0, stallErr{}
 	}
 	return c.rbuf.Read(p) // bytes.Buffer returns io.EOF when empty
 }
@@ -78,7 +94,11 @@ func (c *FuncConn) Write(p []byte) (int, error) {
 			reply = c.handler(line)
 		}
 		c.mu.Lock()
-		c.rbuf.WriteString(reply)
+		if reply == StallMarker {
+			c.stall = true
+		} else {
+			c.rbuf.WriteString(reply)
+		}
 		c.mu.Unlock()
 	}
 	return len(p), nil
